@@ -255,6 +255,12 @@ func (s *Synchronizer) isReverting(
 		return 0, false
 	}
 
+	if remoteHeight == 0 {
+		// remoteHeight - 1 would wrap around. The genesis blocks differ: everything above block 0
+		// is to be reverted and block 0 itself is compared (and found different) by revertTask.
+		return 0, true
+	}
+
 	return remoteHeight - 1, true
 }
 
